@@ -97,11 +97,20 @@ def run(tier):
                           extra_subst=dict({'NLEXEME = 12': f'NLEXEME = {nlexeme}'}, **ksub), why='stripc_why')
     for j in jobs:
         j.subst.pop('NLEXEME = 16', None)
+    from ..common import seed as _seed
+    gsub = 6779 if q else 499
+    for oi in range(5):
+        def explain(mod_, args):
+            a, kw = args
+            text = mod_.g_text(*a[:8])
+            return dict(input=text, options=mod_.SC_OPTS[a[8]], why=mod_.g_stripc_why(text, mod_.SC_OPTS[a[8]]))
+        jobs.append(chrun.Job(M, 'g_stripc', 400 if q else 2400, subst=dict({'PART = -1': f'PART = {oi}', 'GSUB = 0': f'GSUB = {gsub}', 'GSEED = 0': f'GSEED = {_seed()}'}, **ksub),
+                              label=f'g_stripc[option set {oi}]', twin=(oi == 1), explain=explain))
     res = chrun.run_jobs(jobs)
 
     def classify(r):
         why = (r.get('explain') or {}).get('why') or ''
-        if r['func'] == 'stripc':
+        if r['func'] in ('stripc', 'g_stripc'):
             return why.split(': ')[0] if why else 'strip_comments'
         return f'{r["func"]}:not-a-pure-map-on-targets'
 
